@@ -70,20 +70,26 @@ def tree_flags(repo):
 # scenario generator
 def gen_scenario(rng, guards, soft_ok=False, listen=None, allow_null_fallback=False):
     w = rng.choice([16, 32, 48]); h = rng.choice([8, 16, 24])
-    defer = rng.choice([0, 1, 2, 5]); lis = rng.randint(0, 1) if listen is None else listen
+    defer = rng.choice([1, 2, 5]); lis = rng.randint(0, 1) if listen is None else listen
     maxwait = rng.choice([100, 300, 1000]); seed = rng.getrandbits(40)
     mode = rng.choice([0, 1, 1, 2, 2]); d = rng.randint(1, 5); stick = rng.choice([50, 80, 95])
     cpr = rng.choice([300, 1000, 3000, 10000])
     L = ["cfg %d %d %d %d %d %d %d %d %d %d %d %d" % (w, h, defer, lis, maxwait, seed, mode, d, 400000, stick, cpr, guards)]
     npeers = rng.randint(1, 4)
+    has_abandon = False
     for k in range(npeers):
         kind = rng.choice(["stay", "stay", "leave", "abrupt", "slow", "abandon"])
+        has_abandon = has_abandon or kind == "abandon"
         if kind == "stay": p1, p2 = 0, 0
         elif kind in ("leave", "abrupt"): p1, p2 = rng.randint(0, 4), 0
         elif kind == "slow": p1, p2 = rng.choice([1, 5, 20]), rng.choice([16, 64, 512])
         else: p1, p2 = rng.randint(0, 3), rng.randint(0, 1)
         soft = 1 if (soft_ok and kind in ("leave", "abrupt", "slow") and rng.random() < 0.6) else 0
         L.append("peer %d %s %d %d %d" % (k, kind, p1, p2, soft))
+    if not has_abandon and rng.random() < 0.15:
+        # deferUpdateTime 0: the output thread polls with usleep(0) until the handshake is over; with an
+        # abandoned handshake that is a busy loop which only burns the step budget
+        t = L[0].split(); t[3] = "0"; L[0] = " ".join(t)
     pending = list(range(npeers)); rng.shuffle(pending)
     L.append("connect %d" % pending.pop())
     for _ in range(rng.randint(3, 14)):
@@ -178,7 +184,7 @@ def analyse(script, rc, out, err):
     """-> (list of problems: dict(what, finding|None, detail), stats dict)"""
     evs, res = parse(out)
     probs = []
-    ops = [l.split() for l in script.splitlines() if l.strip()]
+    ops = [l.split() for l in script.splitlines() if l.strip() and not l.startswith("#")]
     has_soft = any(o[0] == "peer" and o[5] == "1" for o in ops)
     null_fb = any(o[0] == "cututf8" and o[2] == "0" for o in ops)
     cfgl = ops[0]; listen = cfgl[4] == "1"; guards = int(cfgl[12]) if len(cfgl) > 12 else 0
@@ -388,12 +394,9 @@ def run(ctx):
         if len(samples) < 3 and name.startswith("gen"): samples.append({"script": sc.splitlines(), "result": [l for l in out.splitlines() if l.startswith("res ")][:12]})
         got = sorted({p["finding"] or "VIOLATION" for p in probs})
         dist["outcomes"][",".join(got) if got else "ok"] += 1
-        if exp is not None and exp != "ok":
-            # a witness of a known defect: it must still fail in exactly that way, or be fixed
-            if probs and all(p["finding"] == exp for p in probs):
-                pass
-            elif not probs:
-                dist["outcomes"]["witness-now-passes:" + exp] += 1
+        if exp is not None and exp != "ok" and not probs:
+            # a witness of a known defect no longer fails: the defect is fixed in this tree
+            dist["outcomes"]["witness-now-passes:" + exp] += 1
         for p in probs:
             fails.append({"kind": "oracle", "what": "C13 %s [%s]" % (p["what"], name), "finding": p["finding"],
                           "detail": p["detail"], "script": sc.splitlines(), "impl": [l for l in out.splitlines() if l.startswith("res ")][:40],
